@@ -572,10 +572,32 @@ def replay(pid, path):
     ok_lean, _ = build_lean(["pmdriver"])
     v = run_driver_on([rec])
     print("record :", rec[:2000])
-    print("verdict:", v[0] if v else "<none>")
-    print("(the record holds the implementation's output as observed when the violation was found;")
-    print(" re-run the check to re-observe the implementation)")
-    return 0 if v and v[0].startswith("ok") else 1
+    print("verdict as recorded (implementation output observed when the violation was found):")
+    print("  ", v[0][:2000] if v else "<none>")
+    rc = 0 if v and v[0].startswith("ok") else 1
+    t = rec.split(None, 2)
+    if len(t) > 2 and t[0] == "E2E" and t[1] in ("S", "M", "G"):
+        # re-execute exactly this case (patterns, fallback mode, heuristic, hosts) on the
+        # current tree and judge the fresh output
+        ok_h, h_log = build_harness()
+        if not ok_h:
+            print("harness does not build against /repo:", h_log[-1500:])
+            return 1
+        os.makedirs(os.path.join(CACHE, "focus"), exist_ok=True)
+        fpath = os.path.join(CACHE, "focus", f"replay_{pid}.txt")
+        with open(fpath, "w") as fh:
+            fh.write(rec.split("=>")[0].strip() + "\n")
+        h = subprocess.run([HBIN, "rerun", fpath], capture_output=True, text=True, env=env())
+        fresh = [l for l in h.stdout.splitlines() if l.startswith("E2E")]
+        v2 = run_driver_on(fresh) if fresh else []
+        print("verdict on the current tree (case re-executed):")
+        print("  ", v2[0][:2000] if v2 else "<none: " + h.stdout[:300] + ">")
+        spec = PROPS[pid]
+        cl = classify(fresh, v2, pid, spec)
+        rc = 1 if (cl["oracle"] or cl["disagree"] or cl["bad"] or not v2) else 0
+    else:
+        print("(stage-level record: it holds the implementation's output as observed; re-run the check to re-observe)")
+    return rc
 
 
 def setup():
